@@ -93,7 +93,9 @@ def run(ctx):
     total = 0
     cover = {}
     try:
-        for variant, progs in (("asan", None), ("asan+general", ["sync"]), ("asan+sim", ["sync", "thread"])):
+        variants = (("asan", None), ("asan+general", ["sync"]), ("asan+sim", ["sync", "thread"])) if ctx.quick else \
+            (("asan", None), ("asan+general", None), ("asan+sim", None), ("asan+sync", None), ("default", None))
+        for variant, progs in variants:
             exe = build.driver("drv_alloc", ["drv_alloc.c"], variant=variant)
             rc, out, to = run_driver([exe, "list"])
             names = out.split()
